@@ -84,6 +84,9 @@ func (c *Ctx) FindIndexOf(fn *ssa.Function) *findIndex {
 				if !ok {
 					continue
 				}
+				if pl, isLoad := ebase.(*ssa.UnOp); isLoad && pl.Op == token.MUL {
+					ebase = pl.X // a slice of pointers: the element is loaded first
+				}
 				ia, ok := ebase.(*ssa.IndexAddr)
 				if !ok || ia.Index != v {
 					continue
@@ -153,4 +156,96 @@ func (c *Ctx) foundIndexAt(v ssa.Value, at *ssa.BasicBlock) (*findIndex, *ssa.Ca
 		}
 	}
 	return nil, nil
+}
+
+// R1IndexSentinel — the found-test on the result of a find-index helper does not lose element 0.
+func R1IndexSentinel(c *Ctx) {
+	const rule = "R1-index-sentinel"
+	c.R.Rule(rule, "where the result idx of a find-index helper (returns a position of its slice, or a negative NOTFOUND) is used as an index of that slice under a comparison of idx with a constant, the comparison holds for every valid position including 0: a found-test such as idx > 0 silently skips the first element", 0)
+	n := 0
+	for _, fn := range c.P.ModuleFuncs(NonYaotl) {
+		for _, b := range fn.Blocks {
+			for _, in := range b.Instrs {
+				call, ok := in.(*ssa.Call)
+				if !ok {
+					continue
+				}
+				fi := c.FindIndexOf(call.Call.StaticCallee())
+				if fi == nil {
+					continue
+				}
+				// uses of the result as an index
+				for _, r := range *call.Referrers() {
+					var at *ssa.BasicBlock
+					switch u := r.(type) {
+					case *ssa.IndexAddr:
+						if u.Index == ssa.Value(call) {
+							at = u.Block()
+						}
+					case *ssa.Index:
+						if u.Index == ssa.Value(call) {
+							at = u.Block()
+						}
+					}
+					if at == nil {
+						continue
+					}
+					n++
+					construct := "found-test before [" + shortCallee(CalleeName(call)) + "()]"
+					bad := ""
+					for _, f := range FactsAt(at) {
+						bo, ok := f.Cond.(*ssa.BinOp)
+						if !ok {
+							continue
+						}
+						var k int64
+						var isC, left bool
+						if bo.X == ssa.Value(call) {
+							k, isC = ConstInt(bo.Y)
+							left = true
+						} else if bo.Y == ssa.Value(call) {
+							k, isC = ConstInt(bo.X)
+						}
+						if !isC {
+							continue
+						}
+						holds := func(x int64) bool {
+							a, b := x, k
+							if !left {
+								a, b = k, x
+							}
+							var r bool
+							switch bo.Op {
+							case token.EQL:
+								r = a == b
+							case token.NEQ:
+								r = a != b
+							case token.LSS:
+								r = a < b
+							case token.LEQ:
+								r = a <= b
+							case token.GTR:
+								r = a > b
+							case token.GEQ:
+								r = a >= b
+							default:
+								return true
+							}
+							return r == f.Truth
+						}
+						// the fact excludes NOTFOUND (a found-test) and holds for large positions, but not for 0
+						if !holds(fi.notFound) && holds(1<<20) && !holds(0) {
+							bad = c.pos(bo.Pos())
+						}
+					}
+					if bad == "" {
+						c.R.Ok(rule, FuncShort(fn), construct, c.pos(r.Pos()), "the guard admits every valid position", true)
+					} else {
+						c.R.Bad(rule, FuncShort(fn), construct, bad, "the found-test excludes position 0: the first element of the list is treated as not found")
+					}
+				}
+			}
+		}
+	}
+	c.R.Extra["R1-index-sentinel.sites"] = n
 }
